@@ -13,11 +13,13 @@ from ..common import V, samples_of, seed_offset
 RES_TOL = 1e-12
 
 
-def step_residuals(res, cls, u, t, m_i):
+def step_residuals(res, cls, u, t, m_i, t_in=None):
     """Residual of the implicit update on interior rows and the no-flow outer row, from public
     state only.  Returns (kappa, worst list of (ratio, i, j, resid, tol))."""
     n, nx = u.shape
-    eps_t = float(np.finfo(t.dtype).eps) if t.dtype.kind == "f" and t.dtype.itemsize < 8 else 0.0
+    # precision of the time stamps AS GIVEN BY THE CALLER (a library that stores them as float64 must not lose the slack)
+    td = np.asarray(t_in if t_in is not None else t).dtype
+    eps_t = float(np.finfo(td).eps) if td.kind == "f" and td.itemsize < 8 else 0.0
     D, G, TOLS = [], [], []
     for i in range(n - 1):
         dt = t[i + 1] - t[i]
@@ -86,11 +88,12 @@ def step_residuals(res, cls, u, t, m_i):
 
 def check_run(res, cls, t, m_i, nx, case):
     u = np.asarray(res.pseudopressure, dtype=float)
+    t_in = np.asarray(t)
     t = np.asarray(res.time)
     viol = []
     if not np.all(np.isfinite(u)):
         return [V("be-residual/finite", "stored field is not finite", case=case)], None, 0.0
-    kappa, worst, rmax, kunc = step_residuals(res, cls, u, t, m_i)
+    kappa, worst, rmax, kunc = step_residuals(res, cls, u, t, m_i, t_in)
     if kappa is None:
         if worst:
             ratio, i, j, r, tol = worst[0]
